@@ -5,9 +5,11 @@
 //   ie <15 patterns>             -> "ie <exact sign>"
 //   o  <12 patterns in [1,2)>    -> "o <exact sign> <adaptive sign>"
 //   i  <15 patterns in [1,2)>    -> "i <exact sign> <adaptive sign>"
+//   m <pattern>                  -> "m <get_mantissa>"; oracle: for a double in [1,2) the value is
+//                                   1 + mantissa / 2^52
 //   box <anchor xyz, sides xyz, n generators xyz>
 //                                -> "box <rescaled box anchor, sides> <rescaled tetrahedron> <rescaled
-//                                   generators>" as stored by the real NewVoronoiGrid constructor (compared
+//                                   generators, each with its 6 wall copies>" as stored by the real NewVoronoiGrid constructor (compared
 //                                   bit for bit with the Lean Float model of the same formulas); oracle:
 //                                   every coordinate the cell construction hands to the predicates
 //                                   (generators, box corners, tetrahedron vertices, wall copies) lies in
@@ -156,11 +158,45 @@ static void range_oracle(const CV &anchor, const CV &sides, const std::vector< C
   for (size_t k = 0; k < 4; ++k)
     for (int c = 0; c < 3; ++c)
       std::cout << " " << showF(rb._tetrahedron[k][c]);
-  for (size_t i = 0; i < grid._real_rescaled_positions.size(); ++i)
+  const uint_fast32_t wall_index[6] = {NEWVORONOICELL_BOX_LEFT,  NEWVORONOICELL_BOX_RIGHT,
+                                       NEWVORONOICELL_BOX_FRONT, NEWVORONOICELL_BOX_BACK,
+                                       NEWVORONOICELL_BOX_BOTTOM, NEWVORONOICELL_BOX_TOP};
+  for (size_t i = 0; i < grid._real_rescaled_positions.size(); ++i) {
     for (int c = 0; c < 3; ++c)
       std::cout << " " << showF(grid._real_rescaled_positions[i][c]);
+    // the six wall copies (real get_wall_copy through get_position) of the rescaled generator
+    for (size_t wl = 0; wl < 6; ++wl) {
+      const CV q = rb.get_position(wall_index[wl], grid._real_rescaled_positions[i]);
+      for (int c = 0; c < 3; ++c)
+        std::cout << " " << showF(q[c]);
+    }
+  }
   std::cout << "\n";
-  int nbad = 0;
+  // premises of the Lean theorems rescale_rounded_in_range / rescaled_box_in_range, evaluated on the
+  // real (unscaled) tetrahedron: non-degenerate on every axis, box corners and generators between
+  // its minimum and maximum of that axis
+  {
+    const NewVoronoiBox &vb = grid._real_voronoi_box;
+    int np = 0;
+    for (int c = 0; c < 3 && np < 2; ++c) {
+      const double lo = vb._tetrahedron[0][c], hi = vb._tetrahedron[c + 1][c];
+      if (!(lo < hi)) {
+        ++np;
+        bad << " rescale-premise-violated:tetrahedron-degenerate." << "xyz"[c];
+      }
+      if (!(lo <= anchor[c] && anchor[c] + sides[c] <= hi)) {
+        ++np;
+        bad << " rescale-premise-violated:box-outside-tetrahedron." << "xyz"[c];
+      }
+      for (size_t i = 0; i < pos.size() && np < 2; ++i)
+        if (!(lo <= pos[i][c] && pos[i][c] <= hi)) {
+          ++np;
+          bad << " rescale-premise-violated:generator" << i << "-outside-tetrahedron."
+              << "xyz"[c];
+        }
+    }
+  }
+  int nbad = 0, nmirror = 0;
   auto chk = [&](const char *what, size_t idx, int c, double v) {
     if (!(v >= 1. && v < 2.)) {
       ++nbad;
@@ -191,6 +227,18 @@ static void range_oracle(const CV &anchor, const CV &sides, const std::vector< C
       const CV q = rb.get_position(walls[wl], p);
       for (int c = 0; c < 3; ++c)
         chk("wall-copy-of-generator", i, c, q[c]);
+      // the copy is the mirror image: the other two coordinates are untouched and the wall lies
+      // half way between generator and copy (up to round off of coordinates of size < 2)
+      const int ax = (int)(wl / 2);
+      const double wall = (wl % 2 == 0) ? rba[ax] : rba[ax] + rbs[ax];
+      bool mirror = std::fabs(0.5 * (q[ax] + p[ax]) - wall) <= 2.e-15;
+      for (int c = 0; c < 3; ++c)
+        if (c != ax && q[c] != p[c])
+          mirror = false;
+      if (!mirror && nmirror < 2) {
+        ++nmirror;
+        bad << " wall-copy-not-mirror-image:generator" << i << ".wall" << wl;
+      }
     }
   }
   if (nbad > 3)
@@ -239,6 +287,15 @@ int main() {
       for (size_t i = 0; i < np; ++i)
         q[i] = CV(dbl(w[1 + 3 * i]), dbl(w[2 + 3 * i]), dbl(w[3 + 3 * i]));
       range_oracle(q[0], q[1], std::vector< CV >(q.begin() + 2, q.end()), bad);
+    } else if (w[0] == "m" && w.size() == 2) {
+      const double d = dbl(w[1]);
+      const uint64_t mt = ExactGeometricTests::get_mantissa(d);
+      std::cout << "m " << mt << "\n";
+      // for a double in [1,2): value = 1 + mantissa / 2^52 (exact in double arithmetic)
+      if (d >= 1. && d < 2. && !(1. + std::ldexp((double)mt, -52) == d))
+        bad << " mantissa-does-not-give-value:" << mt;
+      if (mt >> 52)
+        bad << " mantissa-wider-than-52-bits:" << mt;
     } else if (w[0] == "oe" && read_points(w, 4, p)) {
       const int e = o_exact(p);
       std::cout << "oe " << e << "\n";
